@@ -424,6 +424,7 @@ pub assume_specification[ <FineDuration as core::default::Default>::default ]() 
 #   EL    elapsed-time recurrence                                                             C04
 #   MAXT  max_time also bounds the tuning rounds                                              C19
 #   TUNE  sample-size doubling, threshold, first recorded round                               C19
+#   PUB   the sample size published for reporting is the recorded samples' size (PUBL: carried through the loop)  C03 C19
 #   NOTUNE / ISTUNE  precondition selecting explicit-size-or-test runs / tuned runs
 def sel(text: str, enabled: set) -> str:
     out = []
@@ -566,7 +567,7 @@ pub closed spec fn link(h: Hist, cx: BenchContext, cx0: BenchContext, mode: Benc
     &&& elapsed as int == h.el[h.rounds] && rem == h.rem[h.rounds]
     &&& calls == t * sum(h.size)
     &&& cx.samples.time_samples@.len() == recorded(h, t, tune0)
-    &&& (h.rounds > 0 ==> cx.samples.sample_size as int == h.size[h.rounds - 1])
+    &&& (h.rounds > 0 ==> cx.samples.sample_size as int == h.size[h.rounds - 1]) //#PUBL
     &&& (!tune0 ==> mode == mode0 && forall|r: int| 0 <= r < h.rounds ==> #[trigger] h.size[r] == mode_size(mode0) as int)
     &&& (tune0 && h.first == -1 ==> mode == BenchMode::Tune { sample_size: pow2(h.rounds) as u32 } && pow2(h.rounds) <= 0xffff_ffff) //#TUNE
     &&& (tune0 && h.first >= 0 ==> mode == BenchMode::Collect { sample_size: pow2(h.first) as u32 } && pow2(h.first) <= 0xffff_ffff) //#TUNE
@@ -693,7 +694,7 @@ proof {
     assert(elapsed_picos as int == h2.el[h2.rounds] && rem_samples == h2.rem[h2.rounds]);
     assert(calls == t * sum(h2.size));
     assert(self.samples.time_samples@.len() == recorded(h2, t, tune0));
-    assert(self.samples.sample_size as int == h2.size[h2.rounds - 1]);
+    assert(self.samples.sample_size as int == h2.size[h2.rounds - 1]); //#PUBL
     assert(!tune0 ==> current_mode == mode0);
     assert(!tune0 ==> forall|r: int| 0 <= r < h2.rounds ==> #[trigger] h2.size[r] == mode_size(mode0) as int) by {
         if !tune0 { assert forall|r: int| 0 <= r < h2.rounds implies #[trigger] h2.size[r] == mode_size(mode0) as int by {
@@ -721,6 +722,8 @@ proof {
         // the number of rounds is the least r at which the rule says stop
         assert(forall|r: int| 0 <= r < h.rounds ==> stay(#[trigger] h.el[r], h.rem[r], min, max)); //#CONT,CONT3
         assert(stop(h.el[h.rounds], h.rem[h.rounds], min, max));
+        // the sample size published for reporting is the size the recorded samples were taken with
+        assert(h.rounds > 0 ==> self.samples.sample_size as int == h.size[h.rounds - 1]); //#PUB
         lemma_conclusions(h, t, n, skip, min, max, prec, tune0, mode0, calls);
     }
 }
@@ -977,11 +980,18 @@ def loop_inserts(enabled):
 
 def build_loop_file(S: Sources, enabled: set, verify: set, canary=None):
     """The Verus file for one of C03 / C04 / C19 (`enabled` selects the conjuncts)."""
-    # Two ways of publishing the per-round sample size are followed by the proof: (A) stored at
-    # the top of every round (the current code), (B) stored before the loop and on mode changes.
+    # Three ways of publishing the sample size for reporting are followed by the proof: (A) stored at the top of
+    # every round (the current code), (B) stored before the loop and on mode changes, (C) stored once after the
+    # loop from the final mode. What C03 and C19 need (tag PUB) is the value at the end; under A and B it is
+    # also carried through the loop (PUBL), under C it is not maintained inside the loop at all.
     body = S(BENCH).find_fn("bench_loop_threaded", impl=r"impl<'a> BenchContext<'a>").body_text()
-    if not re.search(pin("let sample_size = current_mode.sample_size(); self.samples.sample_size = sample_size;"), body):
-        enabled = set(enabled) | {"PROTOB"}
+    enabled = set(enabled)
+    proto_a = re.search(pin("let sample_size = current_mode.sample_size(); self.samples.sample_size = sample_size;"), body)
+    proto_c = (not proto_a) and re.search(r"\}\s*self\s*\.\s*samples\s*\.\s*sample_size\s*=\s*current_mode\s*\.\s*sample_size\s*\(\s*\)\s*;\s*crate\s*::\s*alloc\s*::\s*IGNORE_ALLOC", body)
+    if not proto_a and not proto_c:
+        enabled |= {"PROTOB"}
+    if "PUB" in enabled and not proto_c:
+        enabled |= {"PUBL"}
     f = lambda t: sel(t, enabled)
     ins = loop_inserts(enabled)
     if canary is not None:
@@ -1012,9 +1022,9 @@ VERIFY = {
 }
 
 TAGS = {
-    "C03": {"CONT3", "REM", "NOTUNE"},
+    "C03": {"CONT3", "REM", "NOTUNE", "PUB"},
     "C04": {"CONT", "REM", "EL", "NOTUNE"},
-    "C19": {"CONT19", "MAXT", "TUNE", "ISTUNE"},
+    "C19": {"CONT19", "MAXT", "TUNE", "ISTUNE", "PUB"},
 }
 
 
